@@ -16,7 +16,10 @@ class C13(scen.PairProp):
                 "Wheatley.C13.threshold_value",
                 "Wheatley.C13.unexpected_stroke_ignored",
                 "Wheatley.C13.inertia_setting_applies",
-                "Wheatley.C13.expectation_used_once"]
+                "Wheatley.C13.expectation_used_once",
+                "Wheatley.C13.cli_inertia"]
+    # the command line: what of the built configuration this property is about
+    cli_fields = ['inertia']
     level_text = ("theorems: with inertia 1 a data point never changes start or interval (the early return), so the "
                   "line after row 0 is independent of every later strike; exp(-9) < 1/1000 (proved for the real "
                   "exponential), hence a strike 3 or more places from its slot gets a weight below the rejection "
